@@ -8,6 +8,8 @@
 //   * LsmTree::apply_manifest_ingest (tail): the new version is installed and THEN the compaction threads are notified;
 //   * LsmTree::apply_manifest_compaction / apply_moving_compaction (tails): the new version is installed and THEN the
 //     stalled ingests are notified.
+//   * LsmTree::compaction_thread (the statement after a compaction is picked): a compaction that fails is released before
+//     the thread returns the error.
 // Ghost counters on the stubs of the wait list and the condition variables carry the protocol.  `drop(wait_guard)` is
 // read as WaitList::unlink(wait_guard) (what WaitGuard's Drop does); dropping an Arc clone has no modelled effect.
 use vstd::prelude::*;
@@ -213,6 +215,49 @@ impl KvsRoll {
 //@ end
 }
 
-//@ min-verified 5
+// ---------------------------------------------------------------- a failed compaction is released
+// LsmTree::compaction_thread, the statement after a compaction has been picked: when perform_compaction fails, the
+// compaction is released (taken off the ongoing list, so its inputs can be picked again by another thread or after a
+// restart of this one) BEFORE the thread returns the error; nothing else on the ongoing list is touched.  The
+// compaction mutex, the snapshot through which the list is reached and the ignored result of release_compaction are
+// dropped (X23); Compaction::clone keeps the identity (it clones an Arc).
+#[verifier::external_body]
+struct CompactionH { _p: u8 }
+impl CompactionH {
+    uninterp spec fn id(&self) -> int;
+    #[verifier::external_body]
+    fn clone(&self) -> (r: CompactionH) ensures r.id() == self.id() { unimplemented!() }
+}
+struct CThread { ongoing: Ghost<ISet<int>> }
+impl CThread {
+    #[verifier::external_body]
+    fn perform_compaction(&mut self, c: CompactionH) -> (r: Result<(), SError>)
+        ensures r is Err ==> final(self).ongoing@ == old(self).ongoing@,
+    { unimplemented!() }
+    // version.version.release_compaction(compaction): the entry with this identity leaves the list (Err if there was none)
+    #[verifier::external_body]
+    fn release_ongoing(&mut self, c: CompactionH) -> (r: Result<(), SError>)
+        ensures final(self).ongoing@ == old(self).ongoing@.remove(c.id()),
+    { unimplemented!() }
+}
+//@ extract lsmtk/src/tree/mod.rs | impl LsmTree :: fn compaction_thread
+//@ region `if let Err(err) = tree.perform_compaction(`
+//@ region-sig <<
+fn compaction_attempt(tree: &mut CThread, compaction: CompactionH) -> (r: Result<(), SError>)
+//@ >>
+//@ region-tail <<
+    Ok(())
+//@ >>
+//@ rewrite-re X18 `\bself\.perform_compaction\(` => `tree.perform_compaction(`
+//@ rewrite-re? X23 `(?m)^\s*let _mutex = self\.compaction\.lock\(\)\.unwrap\(\);\n` => ``
+//@ rewrite-re? X23 `(?m)^\s*let version = self\.take_snapshot\(\);\n` => ``
+//@ rewrite-re? X23 `version\.version\.release_compaction\(` => `tree.release_ongoing(`
+//@ post <<
+        r is Err ==> !final(tree).ongoing@.contains(compaction.id())
+            && forall|x: int| x != compaction.id() ==> (final(tree).ongoing@.contains(x) <==> old(tree).ongoing@.contains(x)),
+//@ >>
+//@ end
+
+//@ min-verified 6
 } // verus!
 fn main() {}
